@@ -2,6 +2,7 @@ import Lean.Data.Json
 import Just.Model.Run
 import Just.Model.Signals
 import Just.Model.Args
+import Just.Model.EnvExport
 open Lean
 
 namespace Just.Run
@@ -35,3 +36,7 @@ partial def modFromJson (j : Json) : Except String Mod := do
   let dflt : Option Sig ← fromJson? (← j.getObjVal? "default")
   return Mod.mk recipes mods dflt
 end Just.Args
+
+namespace Just.EnvExport
+deriving instance FromJson, ToJson for Binding
+end Just.EnvExport
